@@ -17,6 +17,7 @@ func init() {
 	generators["c01"] = genC01
 	generators["c02canon"] = genC02Canon
 	generators["c14"] = genC14
+	generators["c14req"] = genC14Req
 	runners["decode"] = runDecode
 	runners["stream"] = runStream
 	runners["ctldecode"] = runCtlDecode
@@ -513,6 +514,73 @@ func genC02Canon(g *Gen) {
 		for _, q := range reqs {
 			g.emit("req", q.String())
 		}
+	}
+}
+
+// requests of every control-carrying operation with two or more controls in
+// every order: a control that leaves out its criticality or its value right
+// behind one that carries them (the request direction of "any number and order
+// of controls on one message")
+func genC14Req(g *Gen) {
+	r := g.rng
+	one := []byte("v")
+	heads := []TControl{
+		{Kind: "managedsait", Crit: true},
+		{Kind: "str", OID: "1.2.3.4", Crit: true, Val: "v"},
+		{Kind: "str", OID: "1.2.3.4", Crit: false, Val: "secret-value"},
+		{Kind: "str", OID: "1.2.3.4", Crit: true, Val: ""},
+		{Kind: "paging", Size: 7, Cookie: []byte("ck")},
+		{Kind: "behera", E: -1, G: 3, C: -1},
+		{Kind: "vchuwarn", E: 42},
+	}
+	tails := []TControl{
+		{Kind: "str", OID: "1.2.3.5"},
+		{Kind: "managedsait"},
+		{Kind: "msnotif"},
+		{Kind: "vchuchange"},
+		{Kind: "str", OID: "1.2.3.6", Val: "w"},
+		{Kind: "str", OID: "1.2.3.7", Crit: true},
+	}
+	mk := func(kind string, id int64, cs []TControl) *TReq {
+		switch kind {
+		case "bind":
+			return &TReq{Kind: "bind", ID: id, DN: []byte("cn=a"), PW: []byte("pw"), Ctrls: cs}
+		case "search":
+			return &TReq{Kind: "search", ID: id, DN: []byte("dc=x"), Scope: 2, Filter: &TFilter{Kind: "present", A: []byte("cn")}, Ctrls: cs}
+		case "modify":
+			return &TReq{Kind: "modify", ID: id, DN: []byte("cn=a"), Changes: []TChange{{Op: 2, Type: []byte("mail"), Vals: [][]byte{one}}}, Ctrls: cs}
+		case "add":
+			return &TReq{Kind: "add", ID: id, DN: []byte("cn=a"), AddAttrs: []TAttr{{Type: []byte("cn"), Vals: [][]byte{one}}}, Ctrls: cs}
+		}
+		return &TReq{Kind: "del", ID: id, DN: []byte("cn=a"), Ctrls: cs}
+	}
+	kinds := []string{"bind", "search", "modify", "add", "del"}
+	id := int64(1)
+	for _, k := range kinds {
+		for _, h := range heads {
+			for _, t := range tails {
+				g.emit("req", mk(k, id, []TControl{h, t}).String())
+				g.emit("req", mk(k, id+1, []TControl{t, h}).String())
+				g.emit("req", mk(k, id+2, []TControl{h, t, tails[(int(id)+1)%len(tails)]}).String())
+				id += 3
+			}
+		}
+	}
+	for i := 0; i < g.n; i++ {
+		n := 2 + r.Intn(5)
+		cs := make([]TControl, n)
+		for j := range cs {
+			switch r.Intn(3) {
+			case 0:
+				cs[j] = heads[r.Intn(len(heads))]
+			case 1:
+				cs[j] = tails[r.Intn(len(tails))]
+			default:
+				cs[j] = g.control()
+			}
+		}
+		g.emit("req", mk(kinds[r.Intn(len(kinds))], id, cs).String())
+		id++
 	}
 }
 
